@@ -70,7 +70,7 @@ pub fn job_c17(out_dir: &str, tier: &str, seed: u64) {
     let mut sh = Shards::new(out_dir, "c17", 1_000_000);
     let sets = c_supported_sets();
     let all = |_: &str| true;
-    let mut inputs = gen::corpus(&mut rng, if quick { 8 } else { 30 }, if quick { 500 } else { 12000 });
+    let mut inputs = gen::corpus(&mut rng, if quick { 14 } else { 30 }, if quick { 2500 } else { 12000 });
     inputs.retain(|i| i.len() <= 200);
     let mut n = 0usize; let mut skipped = 0usize; let mut died = 0usize;
     let mut pending: Vec<(Value, Vec<u8>, Vec<usize>, CapiOpts, Value)> = Vec::new();
